@@ -12,8 +12,12 @@ import (
 	"crypto/x509"
 	"encoding/base64"
 	"encoding/json"
+	"encoding/pem"
 	"errors"
 	"fmt"
+	"os"
+	"path/filepath"
+	"sort"
 	"strings"
 	"time"
 	. "vh/kit"
@@ -23,6 +27,7 @@ import (
 	"github.com/notaryproject/notation-core-go/signature"
 	nx509 "github.com/notaryproject/notation-core-go/x509"
 	"github.com/notaryproject/notation-go"
+	"github.com/notaryproject/notation-go/dir"
 	"github.com/notaryproject/notation-go/verifier"
 	"github.com/notaryproject/notation-go/verifier/trustpolicy"
 	"github.com/notaryproject/notation-go/verifier/truststore"
@@ -71,12 +76,21 @@ type c06Case struct {
 	Dyn    string   `json:"dyn_store"`    // history only: what the tsa store "dyn" holds at this call: a, b, empty, fail
 	Entry  string   `json:"entry_point"`  // namespace histories: "oci:<statement>" (Verify) or "blob:<statement>" (VerifyBlob); the policy fields above are those of that statement
 	Hist   string   `json:"history"`      // history only: "<sequence>#<step>" — same verifier instance as the previous steps
+	FS     *fsDesc  `json:"real_trust_store,omitempty"` // non-nil: the verifier gets the REAL truststore.NewX509TrustStore on a directory tree built by the driver
 	sess   *session
 	// observation
 	ObsExpiry string `json:"obs_expiry"`
 	ObsTs     string `json:"obs_authentic_timestamp"`
 	Rejected  bool   `json:"obs_rejected"`
 	NowS      int64  `json:"now_seconds"`
+}
+
+// fsDesc describes the tree truststore/x509/<type>/<name>/ of a real-store case: per named store the certificates it
+// holds: "anchor" = the trust anchor of this case's signing chain, "a" / "b" = the root of the in-harness TSA A / B.
+// A store that is not a key has no directory.
+type fsDesc struct {
+	CA  map[string][]string `json:"ca"`
+	TSA map[string][]string `json:"tsa"`
 }
 
 // ---------- the TSA world (shared by all cases) ----------
@@ -157,6 +171,8 @@ type session struct {
 	stmts     map[string]*c06Case             // namespace histories: entry point -> policy content (Stores, Opt, Level, AExp, ATs)
 	opts      *notation.VerifierVerifyOptions // non-nil: every step passes this very object (same maps)
 	lastToken []byte
+	real      truststore.X509TrustStore // real-store histories: ONE truststore.NewX509TrustStore instance for all steps
+	fsRoot    string
 }
 
 // frame is a deep snapshot of every caller-owned object that goes by reference into the library: the descriptor
@@ -183,6 +199,29 @@ func frame(desc ocispec.Descriptor, env []byte, opts *notation.VerifierVerifyOpt
 	return f
 }
 
+// treeDigest lists every entry below root with mode and content hash.
+func treeDigest(root string) string {
+	if root == "" {
+		return ""
+	}
+	var out []string
+	filepath.Walk(root, func(p string, fi os.FileInfo, err error) error {
+		if err != nil {
+			out = append(out, p+":"+err.Error())
+			return nil
+		}
+		h := ""
+		if fi.Mode().IsRegular() {
+			b, _ := os.ReadFile(p)
+			h = fmt.Sprintf("%x", sha256.Sum256(b))
+		}
+		out = append(out, fmt.Sprintf("%s:%v:%s", p, fi.Mode(), h))
+		return nil
+	})
+	sort.Strings(out)
+	return fmt.Sprintf("%x", sha256.Sum256([]byte(strings.Join(out, "\n"))))
+}
+
 func anchorIndex(n, anchor int) int {
 	switch anchor {
 	case 1:
@@ -204,7 +243,7 @@ func newStore(world *tsaWorld) *MockStore {
 	return store
 }
 
-func newVerifier(c *c06Case, store *MockStore, rv *tsRev) (notation.Verifier, any) {
+func newVerifier(c *c06Case, store truststore.X509TrustStore, rv *tsRev) (notation.Verifier, any) {
 	natural := map[string]string{"strict": "Enforce", "permissive": "Log", "audit": "Log"}[c.Level]
 	override := map[trustpolicy.ValidationType]trustpolicy.ValidationAction{trustpolicy.TypeRevocation: trustpolicy.ActionSkip}
 	act := map[string]trustpolicy.ValidationAction{"Enforce": trustpolicy.ActionEnforce, "Log": trustpolicy.ActionLog}
@@ -482,6 +521,13 @@ func (r *tsRev) ValidateContext(ctx context.Context, o revocation.ValidateContex
 	return out, nil
 }
 
+func fsKey(f *fsDesc) string {
+	if f == nil {
+		return ""
+	}
+	return string(must(json.Marshal(f)))
+}
+
 func secs(t, base time.Time) int64 {
 	d := t.Sub(base)
 	if d%time.Second != 0 {
@@ -496,7 +542,7 @@ func runC06(a *Args) error {
 	rng := NewRng(a.Seed)
 	prelude := "From NV Require Import Base C06_Model.\nOpen Scope string_scope.\n"
 	w := NewCaseWriter(a, "C06", prelude, "case", "run")
-	w.Rule = "signing chains of 1..4 certificates minted per case with one validity window per certificate, signing time and expiry placed hours before / after the moment of verification, both schemes and envelope formats, policies whose trustStores list none / one / several / duplicated / empty / failing tsa stores in varying positions x verifyTimestamp {unset, always, afterCertExpiry} x actions of expiry and authenticTimestamp {enforce, log}; countersignatures from an in-harness RFC 3161 TSA: absent, unparsable, wrong content type, bad TSTInfo, over another message / wrong version / unknown hash, from an untrusted root, with a damaged signature, from TSA certificates that are expired at genTime / lack the critical timeStamping EKU / are mis-purposed / chain to a non-self-signed anchor, with genTime +- accuracy inside, on the edge of and outside each certificate window, and every revocation verdict of the timestamping validator, including answers that do not hold one result per TSA certificate (shorter - also cutting off a revoked result -, longer, a nil entry at every position alone and next to other verdicts). Families: each rule of the property violated by its own edit of an otherwise valid case (the edited certificate at every chain position, for each of the three clocks: now, authentic signing time, timestamp); windows nested leaf-innermost and root-innermost with the clock in every gap; the odd tsa store and the scheme's own store at every position of the trustStores list; the trust anchor held by the store at root / middle / leaf; zero-length vs absent countersignature; histories (ONE verifier instance, 5-6 calls whose expected verdict changes, the tsa store content changing between calls, a genuine token replayed on another envelope); plus a random mixture. non-trivial = some validation does not simply pass on an all-valid input (a failure, an expired-now chain saved by the timestamp or by the signing time, a boundary, a non-default policy); distinct = distinct (windows, times, stores, option, actions, scheme, format, token description) tuples"
+	w.Rule = "signing chains of 1..4 certificates minted per case with one validity window per certificate, signing time and expiry placed hours before / after the moment of verification, both schemes and envelope formats, policies whose trustStores list none / one / several / duplicated / empty / failing tsa stores in varying positions x verifyTimestamp {unset, always, afterCertExpiry} x actions of expiry and authenticTimestamp {enforce, log}; countersignatures from an in-harness RFC 3161 TSA: absent, unparsable, wrong content type, bad TSTInfo, over another message / wrong version / unknown hash, from an untrusted root, with a damaged signature, from TSA certificates that are expired at genTime / lack the critical timeStamping EKU / are mis-purposed / chain to a non-self-signed anchor, with genTime +- accuracy inside, on the edge of and outside each certificate window, and every revocation verdict of the timestamping validator, including answers that do not hold one result per TSA certificate (shorter - also cutting off a revoked result -, longer, a nil entry at every position alone and next to other verdicts). Families: each rule of the property violated by its own edit of an otherwise valid case (the edited certificate at every chain position, for each of the three clocks: now, authentic signing time, timestamp); windows nested leaf-innermost and root-innermost with the clock in every gap; the odd tsa store and the scheme's own store at every position of the trustStores list; the trust anchor held by the store at root / middle / leaf; zero-length vs absent countersignature; histories (ONE verifier instance, 5-6 calls whose expected verdict changes, the tsa store content changing between calls, a genuine token replayed on another envelope); the REAL trust store object (truststore.NewX509TrustStore on a directory tree written by the driver) with a ca store and a tsa store of the SAME name and different content: TSA root only in tsa/<n>, only in ca/<n> (tsa/<n> holding another root or having no directory), in both, in neither x both orders of the trustStores list x verifyTimestamp {unset, always, afterCertExpiry with an expired leaf}, different names as control, and histories of two verifications on ONE verifier and ONE store object in both orders (what the tsa store holds is asked from a fresh store instance that is asked about tsa stores only); plus a random mixture. non-trivial = some validation does not simply pass on an all-valid input (a failure, an expired-now chain saved by the timestamp or by the signing time, a boundary, a non-default policy); distinct = distinct (windows, times, stores, option, actions, scheme, format, token description) tuples"
 	w.Assumptions = []string{
 		"the implementation reads the wall clock: every time compared with 'now' is at least one hour away from it, so the equality boundaries now = expiry / notBefore / notAfter are proved on the model only; boundaries that do not involve 'now' (signing time or timestamp range equal to a certificate bound) are driven on the code",
 		"oracle facts about the countersignature (parse, TSTInfo, imprint, genTime/accuracy, chain under the tsa stores' certificates at genTime, timestamping-certificate rules) are asked from tspclient-go, crypto/x509 and notation-core-go on the very bytes the verifier receives",
@@ -626,8 +672,43 @@ func runC06(a *Args) error {
 			store = newStore(world)
 		}
 		anchorCert := narrow[anchorIndex(n, c.Anchor)].C
-		store.Put(truststore.TypeCA, "s", anchorCert)
-		store.Put(truststore.TypeSigningAuthority, "s", anchorCert)
+		var vstore truststore.X509TrustStore = store
+		fsRoot := ""
+		if c.FS != nil {
+			// the real directory store: the tree is written before any call of the history is made
+			fsRoot = filepath.Join(a.Out, "fs", fmt.Sprint(my))
+			if c.sess != nil {
+				if c.sess.fsRoot == "" {
+					c.sess.fsRoot = fsRoot
+					c.sess.real = truststore.NewX509TrustStore(dir.NewSysFS(fsRoot))
+				}
+				fsRoot, vstore = c.sess.fsRoot, c.sess.real
+			} else {
+				vstore = truststore.NewX509TrustStore(dir.NewSysFS(fsRoot))
+			}
+			for ty, m := range map[string]map[string][]string{"ca": c.FS.CA, "tsa": c.FS.TSA} {
+				for name, labels := range m {
+					d := filepath.Join(fsRoot, "truststore", "x509", ty, name)
+					if err := os.MkdirAll(d, 0o755); err != nil {
+						panic(err)
+					}
+					for _, l := range labels {
+						file, cert := l+".pem", anchorCert
+						if l == "anchor" {
+							file = fmt.Sprintf("anchor%d.pem", my)
+						} else {
+							cert = world.stores[l][0]
+						}
+						if err := os.WriteFile(filepath.Join(d, file), pem.EncodeToMemory(&pem.Block{Type: "CERTIFICATE", Bytes: cert.Raw}), 0o644); err != nil {
+							panic(err)
+						}
+					}
+				}
+			}
+		} else {
+			store.Put(truststore.TypeCA, "s", anchorCert)
+			store.Put(truststore.TypeSigningAuthority, "s", anchorCert)
+		}
 		return func() {
 			if c.Dyn != "" {
 				k := StoreKey{Type: truststore.TypeTSA, Name: "dyn"}
@@ -652,7 +733,15 @@ func runC06(a *Args) error {
 					continue
 				}
 				seenName[name] = true
-				certs, err := store.GetCertificates(context.Background(), truststore.TypeTSA, name)
+				var certs []*x509.Certificate
+				var err error
+				if c.FS != nil {
+					// asked from a FRESH instance of the real store that is asked about tsa stores only: what the
+					// directory truststore/x509/tsa/<name> holds, whatever the verifier's instance did before
+					certs, err = truststore.NewX509TrustStore(dir.NewSysFS(fsRoot)).GetCertificates(context.Background(), truststore.TypeTSA, name)
+				} else {
+					certs, err = store.GetCertificates(context.Background(), truststore.TypeTSA, name)
+				}
 				switch {
 				case err != nil:
 					dbTerms = append(dbTerms, CPair(CStr(name), "SErr"))
@@ -700,7 +789,7 @@ func runC06(a *Args) error {
 					if c.sess.stmts != nil {
 						newNSVerifier(c.sess, store)
 					} else {
-						c.sess.v, c.sess.doc = newVerifier(c, store, rv)
+						c.sess.v, c.sess.doc = newVerifier(c, vstore, rv)
 					}
 				}
 				v, doc = c.sess.v, c.sess.doc
@@ -708,13 +797,14 @@ func runC06(a *Args) error {
 					opts = c.sess.opts // the SAME options object and maps as in the previous steps
 				}
 			} else {
-				v, doc = newVerifier(c, store, rv)
+				v, doc = newVerifier(c, vstore, rv)
 			}
 			opts.ArtifactReference, opts.SignatureMediaType = TestRef, c.Format
 			if c.Entry == "oci:q" {
 				opts.ArtifactReference = otherRef
 			}
 			frame0 := frame(desc, env, opts, doc, c.Stores, store)
+			frame0["trust store directory tree"] = treeDigest(fsRoot)
 			before := time.Now()
 			var outcome *notation.VerificationOutcome
 			var verr2 error
@@ -733,6 +823,7 @@ func runC06(a *Args) error {
 			after := time.Now()
 			// frame check: the library only reads what the caller handed in
 			frame1 := frame(desc, env, opts, doc, c.Stores, store)
+			frame1["trust store directory tree"] = treeDigest(fsRoot)
 			for what, before := range frame0 {
 				if frame1[what] != before && emit {
 					w.ImplViolation(my, "library mutated caller-owned "+what, c, "")
@@ -833,7 +924,7 @@ func runC06(a *Args) error {
 				CList(certTerms), CStrList(c.Stores), optTerm, CList(dbTerms), tokTerm, c.AExp, c.ATs)
 			obs := CApp("mk_obs", expTerm, tsTerm, CBool(c.Rejected))
 			term := CApp("mk_case", CN(my), in, obs)
-			key := fmt.Sprintf("%v|%v|%v|%v|%v|%v|%v|%v|%v|%v|%+v|%v|%v|%v", c.Win, c.SigH, c.ExpH, c.Stores, c.Opt, c.AExp, c.ATs, c.SA, c.Format, c.Level, c.Tok, c.Anchor, c.Dyn, c.Hist+c.Entry)
+			key := fmt.Sprintf("%v|%v|%v|%v|%v|%v|%v|%v|%v|%v|%+v|%v|%v|%v", c.Win, c.SigH, c.ExpH, c.Stores, c.Opt, c.AExp, c.ATs, c.SA, c.Format, c.Level, c.Tok, c.Anchor, c.Dyn, c.Hist+c.Entry+fsKey(c.FS))
 			nontriv := c.ObsExpiry != "passed" || c.ObsTs != "Passed" || c.Fam != "valid"
 			w.Add(my, term, c, key, nontriv)
 			w.Count("family", c.Fam)
